@@ -513,8 +513,9 @@ type groupUse struct {
 // readerGroupUse: for each res[k], the parser applied and the struct field receiving the result.
 func readerGroupUse(fn *ssa.Function) map[int]groupUse {
 	out := map[int]groupUse{}
-	for _, b := range fn.Blocks {
-		for _, ins := range b.Instrs {
+	// with the helpers the reader was split into
+	for _, blockInstrs := range [][]ssa.Instruction{viewOf(fn).Instrs} {
+		for _, ins := range blockInstrs {
 			ia, ok := ins.(*ssa.IndexAddr)
 			if !ok {
 				continue
@@ -778,8 +779,7 @@ func resultDestField(call *ssa.Call) string {
 var bip276PayloadText string
 
 func checksumGuard(c *Ctx, reader *ssa.Function) {
-	pe := pEngine(c)
-	pf := pe.pf(reader)
+	pEngine(c)
 	for _, b := range reader.Blocks {
 		ret, ok := b.Instrs[len(b.Instrs)-1].(*ssa.Return)
 		if !ok || len(ret.Results) != 2 || returnKinds(ret.Results[1]) != 1 {
@@ -799,9 +799,19 @@ func checksumGuard(c *Ctx, reader *ssa.Function) {
 			if !ok || (bo.Op != token.NEQ && bo.Op != token.EQL) {
 				continue
 			}
-			l, r := pf.get(bo.X), pf.get(bo.Y)
-			isGroup5 := func(n *vn) bool {
-				return n.op == "load" && n.args[0].op == "indexaddr" && n.args[0].args[1].op == "const" && n.args[0].args[1].c != nil && n.args[0].args[1].c.ExactString() == "5"
+			view := viewOf(reader)
+			l, r := view.Env.Val(bo.X), view.Env.Val(bo.Y)
+			isGroup5 := func(v ssa.Value) bool {
+				ld, ok := v.(*ssa.UnOp)
+				if !ok || ld.Op != token.MUL {
+					return false
+				}
+				ia, ok := ld.X.(*ssa.IndexAddr)
+				if !ok {
+					return false
+				}
+				k, ok := constInt(ia.Index)
+				return ok && k.Int64() == 5
 			}
 			// the other side: the checksum text of the payload built from the decoded fields
 			isRecomputedV := func(v ssa.Value) bool {
